@@ -10,6 +10,7 @@ mod rng;
 mod router;
 mod size;
 mod smoke;
+mod timeouts;
 mod tower;
 mod wire;
 
@@ -40,6 +41,7 @@ fn main() -> anyhow::Result<()> {
         "C07" => wire::run_c07(&mut run, replay.as_deref(), &corpus)?,
         "C04" => peers::run_c04(&mut run, replay.as_deref())?,
         "C05" => peers::run_c05(&mut run, replay.as_deref())?,
+        "C11" => timeouts::run_c11(&mut run)?,
         "C16" => router::run_c16(&mut run, replay.as_deref())?,
         "C17" => codegen::run_c17(&mut run)?,
         "C18" => tower::run_c18(&mut run, replay.as_deref())?,
